@@ -403,27 +403,126 @@ def build_units(tier: str) -> list[Unit]:
     return units
 
 
-def native_replay(unit: str, obligation: str, model: dict) -> tuple[bool, str]:
-    """Run the real RandomUDSServer with the missing-sub-function rule switched off on a
-    1-byte request of a sub-function service."""
+SUBFUNC_SERVICES = {0x10, 0x11, 0x19, 0x27, 0x28, 0x2C, 0x31, 0x3E, 0x85}
+RULES = ["default_response_if_service_not_supported", "default_response_if_missing_sub_function",
+         "default_response_if_sub_function_not_supported", "default_response_if_incorrect_format",
+         "default_response_if_session_change", "default_response_if_session_read",
+         "default_response_if_tester_present"]
+
+
+def reference_reply(M: dict, cur: int, on: dict[str, bool], pdu: bytes, parsable: bool
+                    ) -> tuple[str, Any] | None:
+    """What the statement's priority chain implies for a request (None: no default rule
+    applies, the handler / the none-rule decides).  M: session -> {service id -> sub-function
+    list | None}."""
+    sid = pdu[0]
+    in_cur = sid in M.get(cur, {})
+    if on[RULES[0]] and not in_cur:
+        anywhere = any(sid in svcs for svcs in M.values())
+        return ("neg", 0x7F if anywhere else 0x11)
+    issub = sid in SUBFUNC_SERVICES
+    if on[RULES[1]] and issub and len(pdu) < 2:
+        return ("neg", 0x13)
+    if on[RULES[2]] and issub and sid != 0x31 and len(pdu) >= 2:
+        sf = pdu[1] & 0x7F
+        subs = lambda s: (M.get(s, {}).get(sid) or [])  # noqa: E731
+        if sf not in subs(cur):
+            other = any(sf in subs(s) for s in M if s != cur)
+            return ("neg", 0x7E if other else 0x12)
+    if on[RULES[3]] and not parsable:
+        return ("neg", 0x13)
+    if on[RULES[4]] and sid == 0x10 and parsable and len(pdu) == 2:
+        return ("session-change", pdu[1] & 0x7F)
+    if on[RULES[5]] and pdu == bytes.fromhex("22f186"):
+        return ("session-read", cur)
+    if on[RULES[6]] and sid == 0x3E and parsable and len(pdu) == 2 and pdu[1] & 0x7F == 0:
+        return ("tester-present", None)
+    return None
+
+
+def native_rules(seeds: range = range(1, 5)) -> tuple[bool, str]:
+    """The real RandomUDSServer against the reference above: every request of a small family, in
+    every session of the model, with all rules on and with each rule switched off; plus the
+    state effects of suppressed positive replies."""
     import asyncio
     import logging
     logging.disable(logging.CRITICAL)
     SV = server_module()
     from gallia.services.uds.core import service as S
 
-    async def go() -> str:
-        srv = SV.RandomUDSServer(1)
-        await srv.setup()
-        srv.behavior.default_response_if_missing_sub_function = False
-        try:
-            r = await srv.respond(S.UDSRequest.parse_dynamic(bytes([0x10])))
-            return f"replied {r!r}"
-        except Exception as e:  # noqa: BLE001
-            return f"raised {type(e).__name__}: {e}"
-    out = asyncio.run(go())
-    return out.startswith("raised"), ("RandomUDSServer(seed=1), missing-sub-function rule "
-                                      "off, request 10 -> " + out)
+    async def go() -> tuple[bool, str]:
+        for seed in seeds:
+            srv = SV.RandomUDSServer(seed)
+            await srv.setup()
+            M = {int(s): {int(k): (list(v) if v is not None else None) for k, v in svcs.items()}
+                 for s, svcs in srv.services.items()}
+            sids = sorted({k for svcs in M.values() for k in svcs} | {0x00, 0x23, 0x84, 0xBA})
+            reqs = []
+            for sid in sids:
+                reqs.append(bytes([sid]))
+                for b in (0x00, 0x01, 0x02, 0x03, 0x81, 0x83, 0x7F, 0xC1):
+                    reqs.append(bytes([sid, b]))
+                    reqs.append(bytes([sid, b, 0x00]))
+            reqs.append(bytes.fromhex("22f186"))
+            configs = [dict.fromkeys(RULES, True)] + [
+                {**dict.fromkeys(RULES, True), r: False} for r in RULES]
+            for on in configs:
+                for name, val in on.items():
+                    setattr(srv.behavior, name, val)
+                for cur in sorted(M):
+                    for raw in reqs:
+                        srv.state.reset()
+                        srv.state.session = cur
+                        q = S.UDSRequest.parse_dynamic(raw)
+                        parsable = not isinstance(q, S.RawRequest)
+                        want = reference_reply(M, cur, on, raw, parsable)
+                        if want is None:
+                            continue
+                        try:
+                            r = await srv.respond_without_state_change(q)
+                        except Exception as e:  # noqa: BLE001
+                            if raw == bytes([raw[0]]) and not on[RULES[1]]:
+                                continue  # one-byte request with rule 2 off: unspecified
+                            return True, (f"seed {seed}, session {cur:#x}, rules off "
+                                          f"{[k for k, v in on.items() if not v]}: request "
+                                          f"{raw.hex()} raised {type(e).__name__}")
+                        got: tuple[str, Any]
+                        if isinstance(r, S.NegativeResponse):
+                            got = ("neg", int(r.response_code))
+                        elif isinstance(r, S.DiagnosticSessionControlResponse):
+                            got = ("session-change", r.diagnostic_session_type)
+                        elif isinstance(r, S.ReadDataByIdentifierResponse) and raw.hex() == "22f186":
+                            got = ("session-read", r.data_record[0])
+                        elif isinstance(r, S.TesterPresentResponse):
+                            got = ("tester-present", None)
+                        else:
+                            got = ("other", type(r).__name__)
+                        if want[0] == "session-change" and got[0] == "neg":
+                            continue  # target session not offered: decided by rule 3 / handler
+                        if got != want:
+                            return True, (f"RandomUDSServer(seed={seed}), session {cur:#x}, "
+                                          f"rules off {[k for k, v in on.items() if not v]}: "
+                                          f"request {raw.hex()} -> {got}, the rule chain of the "
+                                          f"statement gives {want}")
+            # state effects of suppressed positive replies
+            for name in RULES:
+                setattr(srv.behavior, name, True)
+            srv.behavior.default_response_if_suppress = True
+            for cur in sorted(M):
+                for tgt in (M[cur].get(0x10) or []):
+                    srv.state.reset()
+                    srv.state.session = cur
+                    r = await srv.respond(S.UDSRequest.parse_dynamic(bytes([0x10, 0x80 | tgt])))
+                    if r is not None or srv.state.session != tgt:
+                        return True, (f"seed {seed}: 10 {0x80 | tgt:02x} in session {cur:#x}: "
+                                      f"reply {r!r}, session afterwards {srv.state.session:#x} "
+                                      f"(expected no reply and session {tgt:#x})")
+        return False, "the server follows the rule chain on the sampled models"
+    return asyncio.run(go())
+
+
+def native_replay(unit: str, obligation: str, model: dict) -> tuple[bool, str]:
+    return native_rules()
 
 
 def native_search(unit: str, obligation: str, seed: int) -> dict | None:
